@@ -65,6 +65,7 @@ func Preset(prop string, adversarial bool, r *scen.Rand) *Params {
 		p.TasksP = 0.25 // a mismatch must not pass silently under concurrency either
 		p.ReplayP = 0.3
 	case "C03":
+		p.FaultP = 0.08 // a few worlds with disk faults: the narrow oracles of DESIGN.md 5.3 apply to the calls they hit
 		p.NonTestNames = true
 		p.Alpha = Alpha{Plain: 8, Framing: 1, Structured: 2}
 		p.Envs = []map[string]string{envOff, envCI, envUpd}
@@ -82,6 +83,7 @@ func Preset(prop string, adversarial bool, r *scen.Rand) *Params {
 		p.TasksP = 0.25
 		p.ReplayP = 0.8
 	case "C04":
+		p.FaultP = 0.08 // a few worlds with disk faults: the narrow oracles of DESIGN.md 5.3 apply to the calls they hit
 		p.Counts = []int{1, 1, 1, 2, 3}
 		p.Alpha = Alpha{Plain: 7, Framing: 3, Structured: 2}
 		p.Envs = []map[string]string{envUpd, envUpd, envOff}
@@ -93,6 +95,7 @@ func Preset(prop string, adversarial bool, r *scen.Rand) *Params {
 		p.PreEditP = 0.08
 		p.ReplayP = 1
 	case "C05":
+		p.FaultP = 0.08 // a few worlds with disk faults: the narrow oracles of DESIGN.md 5.3 apply to the calls they hit
 		p.Alpha = Alpha{Plain: 9, Framing: 1, Structured: 1}
 		p.Envs = allEnvs
 		p.UpdateOpt = 0.6
@@ -124,6 +127,7 @@ func Preset(prop string, adversarial bool, r *scen.Rand) *Params {
 		p.APIw = allAPIs(4, 2)
 		p.RecordTasksP = 0.3 // first use of files and directories by several tests at once
 	case "C07":
+		p.FaultP = 0.08 // a few worlds with disk faults: the narrow oracles of DESIGN.md 5.3 apply to the calls they hit
 		p.NonTestNames = true
 		p.Alpha = Alpha{Plain: 9, Framing: 1, Structured: 1}
 		p.Envs = allEnvs
@@ -168,6 +172,7 @@ func Preset(prop string, adversarial bool, r *scen.Rand) *Params {
 		p.CleanAgainP = 0.3
 		p.APIw = allAPIs(3, 2)
 	case "C10":
+		p.FaultP = 0.08 // a few worlds with disk faults: the narrow oracles of DESIGN.md 5.3 apply to the calls they hit
 		p.Counts = []int{1, 1, 1, 2, 3}
 		p.Alpha = Alpha{Plain: 6, Framing: 4, Structured: 1}
 		p.Envs = []map[string]string{envOff, envClean, envUpd}
@@ -210,6 +215,7 @@ func Preset(prop string, adversarial bool, r *scen.Rand) *Params {
 		p.EditValueP = 0.4
 		p.ReplayP = 0.5
 	case "C19":
+		p.FaultP = 0.08 // a few worlds with disk faults: the narrow oracles of DESIGN.md 5.3 apply to the calls they hit
 		p.APIw = map[string]int{scen.APISSnap: 5, scen.APISJSON: 3, scen.APISnapshot: 1}
 		p.Alpha = Alpha{Plain: 4, Framing: 5, Structured: 2}
 		p.Envs = allEnvs
